@@ -254,7 +254,19 @@ def main():
             for lab, o in r.obligations.items():
                 if not lab.startswith(prefixes) and ".unlabelled@" not in lab:
                     continue  # obligation of another property that shares this unit
+                w = ledger.get(lab) if ledger.get(lab, {}).get("tag") == "W" else None
                 ledger[lab] = dict(status=o["status"], tool="verus/z3", tag="P", unit=r.unit, msg=o["msg"])
+                if w is not None:
+                    # the same obligation also has witness inputs replayed on the real crate: it fails if either fails, and a
+                    # failing witness is the concrete input for the failed contract clause
+                    ledger[lab]["witness_status"] = w["status"]
+                    if w["status"] == "failed":
+                        if o["status"] == "failed":
+                            ledger[lab].update(witness=w["witness"], test=w["test"], witness_msg=w["msg"])
+                        else:
+                            ledger[lab] = w
+                    elif w["status"] == "undecided" and o["status"] == "discharged":
+                        ledger[lab]["witness_note"] = w["msg"][:300]
         for lab, o in ledger.items():
             if o["status"] == "undecided":
                 undecided.append("%s: %s" % (lab, o.get("msg", "")[:300]))
@@ -285,8 +297,9 @@ def main():
             rec = dict(property=pid, obligation=lab, tool=o.get("tool"), verifier_output=o.get("msg", ""),
                        repo_state=repo_state(), inputs=None, replay_result=None)
             suffix = " no-failing-input-found"
-            if o.get("tag") == "W":
-                rec.update(inputs="see witness file", witness=o.get("witness"), test=o.get("test"), replay_result="reproduced", replay_output=o.get("msg"))
+            if o.get("tag") == "W" or o.get("witness_msg"):
+                rec.update(inputs="see witness file", witness=o.get("witness"), test=o.get("test"), replay_result="reproduced",
+                           replay_output=o.get("witness_msg") or o.get("msg"))
                 suffix = ""
             info = replay_info.get(lab) or twin_for(cfg, lab, replay_info)
             if info:
